@@ -270,10 +270,48 @@ fn random_case(rng: &mut Rng, malformed: bool) {
     w.emit(if malformed { "malformed" } else { "random" });
 }
 
+
+/// corpus syntax (one case per line, tokens separated by spaces): Sa/St start notify_after/notify_at;
+/// N noop (a core call that only runs the executor); F<i> fire (right response), Fk<i> wrong kind, Fi<i> wrong id; R<i> drop request; C<i> clear;
+/// H<i> drop handle; A<i> answer clear (right), Ak<i> wrong kind, Ai<i> wrong id; D<i> drop clear request
+fn parse_case(line: &str, kinds: &mut Vec<Kind>) -> Vec<In> {
+    let mut v = vec![];
+    for tok in line.split_whitespace() {
+        let (head, idx): (String, String) = (tok.chars().take_while(|c| c.is_alphabetic()).collect(), tok.chars().skip_while(|c| c.is_alphabetic()).collect());
+        let i: usize = idx.parse().unwrap_or(0);
+        let k = kinds.get(i).copied().unwrap_or(Kind::After);
+        let wrong_kind = Resp { kind: if k == Kind::After { 1 } else { 2 }, off: 0 };
+        v.push(match head.as_str() {
+            "Sa" => { kinds.push(Kind::After); In::Start(Kind::After) }
+            "St" => { kinds.push(Kind::At); In::Start(Kind::At) }
+            "N" => In::Noop,
+            "F" => In::Fire(i, right_start(k)), "Fk" => In::Fire(i, wrong_kind), "Fi" => In::Fire(i, Resp { kind: right_start(k).kind, off: 1 }),
+            "R" => In::DropReq(i), "C" => In::Clear(i), "H" => In::DropHandle(i),
+            "A" => In::AnsClr(i, RIGHT_CLR), "Ak" => In::AnsClr(i, right_start(k)), "Ai" => In::AnsClr(i, Resp { kind: 3, off: 1 }),
+            "D" => In::DropClr(i),
+            other => panic!("corpus: unknown token {}", other),
+        });
+    }
+    v
+}
+fn run_corpus(file: &str) {
+    let dir = std::env::var("TIMER_CORPUS_DIR").unwrap_or_else(|_| "/verif/corpus/timer".into());
+    if let Ok(text) = std::fs::read_to_string(format!("{}/{}", dir, file)) {
+        for line in text.lines() {
+            let line = line.split('#').next().unwrap().trim();
+            if line.is_empty() { continue; }
+            let mut kinds = vec![];
+            let w = replay(&parse_case(line, &mut kinds));
+            w.emit("corpus");
+        }
+    }
+}
+
 fn main() {
     std::panic::set_hook(Box::new(|_| {}));
     let a: Vec<u64> = std::env::args().skip(1).map(|s| s.parse().expect("numeric args")).collect();
     let (seed, l1, l2, nrand, nmal) = (a[0], a[1] as usize, a[2] as usize, a[3], a[4]);
+    run_corpus("core.txt");
     let mut count = 0u64;
     for k in [Kind::After, Kind::At] {
         exhaustive(&[In::Start(k)], l1, false, "exh1", &mut count);
